@@ -37,7 +37,98 @@ pub fn agree_case(fam: &Family, enc: Enc, a: u32, b: u32, loc: &mut Local) -> Ve
     cl
 }
 
+// ------------------------------------------------------------------------------------------------
+// near-collinear fans: two triangles that share only an apex O; the edges leaving O are almost collinear
+// (the far end R of one lies 1..3 units to the right of the line O->P of the other, at distances of ~2*10^7).
+// All coordinates are integers below 2^24 in magnitude (exact in f32 and f64), coordinate differences are
+// not exact in f32. There is no proper intersection, so every coordinate of every correct result is an input
+// coordinate and the f32 result must equal the f64 result bit for bit. This is an inexact-degenerate family
+// for single precision (cf. DESIGN 3.5): members on which the unchanged f32 instantiation fails are listed
+// individually as known findings.
+// ------------------------------------------------------------------------------------------------
+
+pub const N_FANS: usize = 48;
+
+pub fn fan(k: usize) -> (MP, MP) {
+    let mut st: u64 = 0x9E3779B97F4A7C15u64.wrapping_mul(k as u64 + 17);
+    let mut rnd = || {
+        st ^= st << 13;
+        st ^= st >> 7;
+        st ^= st << 17;
+        (st >> 11) as f64 / (1u64 << 53) as f64
+    };
+    let o = (-8_325_558.0 + (rnd() * 1000.0).round(), -7_607_858.0 + (rnd() * 1000.0).round());
+    let theta = 0.25 + rnd() * 1.0; // direction of the shared ray, first quadrant
+    let l = 1.6e7 + rnd() * 5.0e6;
+    let dir = (theta.cos(), theta.sin());
+    let p = ((o.0 + l * dir.0).round(), (o.1 + l * dir.1).round());
+    let s = if k % 2 == 0 { 1.2 } else { 0.8 };
+    let mut r = ((o.0 + s * l * dir.0).round(), (o.1 + s * l * dir.1).round());
+    // move R to the right of the line O->P by the smallest integer step that makes the orientation strictly negative
+    let perp = if dir.0.abs() > dir.1.abs() { (0.0, -1.0) } else { (1.0, 0.0) };
+    let mut guard = 0;
+    while orient(o, p, r) >= 0.0 && guard < 64 {
+        r = (r.0 + perp.0, r.1 + perp.1);
+        guard += 1;
+    }
+    for _ in 0..(k % 3) {
+        r = (r.0 + perp.0, r.1 + perp.1);
+    }
+    let t = ((o.0 + 0.9 * l * (theta + 0.7).cos()).round(), (o.1 + 0.9 * l * (theta + 0.7).sin()).round());
+    let b = ((o.0 + 1.1 * l * (theta - 0.7).cos()).round(), (o.1 + 1.1 * l * (theta - 0.7).sin()).round());
+    let a = geo_types::MultiPolygon(vec![poly_from(&[o, p, t], &[])]);
+    let bb = geo_types::MultiPolygon(vec![poly_from(&[o, b, r], &[])]);
+    (a, bb)
+}
+
+pub fn fan_case(k: usize, swapped: bool, loc: &mut Local) -> Vec<String> {
+    let (a, b) = fan(k);
+    let (a, b) = if swapped { (b, a) } else { (a, b) };
+    let mut cl = vec![];
+    for op in OPS {
+        let (x, y) = (call_full(&a, &b, op, Ft::F64, Pairing::MM), call_full(&a, &b, op, Ft::F32, Pairing::MM));
+        loc.transitions += 2;
+        match (x.res, y.res) {
+            (Ok(r64), Ok(r32)) => {
+                // f64 control: the obvious result (no proper intersection: the triangles only share the apex)
+                let want64: usize = match op {
+                    geo_booleanop::boolean::Operation::Intersection => 0,
+                    geo_booleanop::boolean::Operation::Difference => 1,
+                    _ => 2,
+                };
+                if r64.0.len() != want64 || (want64 > 0 && (mp_area(&r64) - match op {
+                    geo_booleanop::boolean::Operation::Difference => mp_area(&a),
+                    _ => mp_area(&a) + mp_area(&b),
+                }).abs() > 1e-3 * mp_area(&a)) {
+                    cl.push(format!("C10 fan: f64 result is not the obvious one {}", op_name(op)));
+                }
+                if !mp_bits_eq(&r64, &r32) {
+                    cl.push(format!("C10 fan: f32-result!=f64-result {}", op_name(op)));
+                }
+            }
+            (Ok(_), Err(_)) => cl.push(format!("C10 fan: f32-panics-where-f64-returns {}", op_name(op))),
+            (Err(_), _) => cl.push(format!("C10 fan: f64-panics {}", op_name(op))),
+        }
+    }
+    cl
+}
+
 pub fn replay(case: &Value, verbose: bool) -> Vec<String> {
+    if case["kind"] == "fan" {
+        let k = case["k"].as_u64().unwrap() as usize;
+        let sw = case["swapped"].as_bool().unwrap();
+        if verbose {
+            let (a, b) = fan(k);
+            println!("A = {}\nB = {}", hex(&a), hex(&b));
+            for op in OPS {
+                let (x, y) = if sw { (&b, &a) } else { (&a, &b) };
+                println!("{} f64 -> {:?}", op_name(op), call_full(x, y, op, Ft::F64, Pairing::MM).res.map(|r| hex(&r)));
+                println!("{} f32 -> {:?}", op_name(op), call_full(x, y, op, Ft::F32, Pairing::MM).res.map(|r| hex(&r)));
+            }
+        }
+        let mut loc = Local::default();
+        return fan_case(k, sw, &mut loc);
+    }
     if case["kind"] == "agree" {
         let fam = family_cached(case["family"].as_str().unwrap());
         let enc = enc_from(case["enc"].as_str().unwrap_or("M"));
@@ -111,6 +202,18 @@ pub fn run(tier: &str) -> i32 {
             PairSet::WithTriangle
         },
     );
+    st.family(&format!("near-collinear apex fans: {N_FANS} pairs of triangles sharing only an apex, edges from the apex collinear to within 1e-7 relative, x 2 operand orders x 4 operations, f32 vs f64 bit for bit"));
+    for k in 0..N_FANS {
+        for sw in [false, true] {
+            let mut loc = Local::default();
+            loc.states += 1;
+            loc.nontrivial += 1;
+            for c in fan_case(k, sw, &mut loc) {
+                loc.violation(&c, format!("fan:{k}:{sw}:{}", clause_op(&c)), json!({"prop": "C10", "kind": "fan", "k": k, "swapped": sw}));
+            }
+            st.merge(&loc);
+        }
+    }
     // integer coordinates up to 2^24 (exact in f32) with inexact differences, in f32 and, as a control, in f64
     sweep_table(&st, "C10", &pi_spec(), Ft::F32, &want, if thorough { PairSet::All } else { PairSet::WithTriangle });
     sweep_table(&st, "C10", &pi_spec(), Ft::F64, &want, PairSet::TrianglesOnly);
